@@ -24,12 +24,14 @@ fn check(id: &str, tier: Tier) -> i32 {
         "C01" => props::grouping::check(Which::C01, tier),
         "C02" => props::c02::check(tier),
         "C03" => props::grouping::check(Which::C03, tier),
+        "C04" => props::c04::check(tier),
         "C05" => props::c05::check(tier),
         "C06" => props::c06::check(tier),
         "C07" => props::c07::check(tier),
         "C08" => props::c08::check(tier),
         "C10" => props::c10::check(tier),
         "C11" => props::c11::check(tier),
+        "C12" => props::c12::check(tier),
         "C13" => props::c13::check(tier),
         "C14" => props::c14::check(tier),
         "C15" => props::c15::check(tier),
@@ -49,12 +51,14 @@ fn replay(id: &str, f: &Path) -> i32 {
         "C01" => props::grouping::replay(Which::C01, f),
         "C02" => props::c02::replay(f),
         "C03" => props::grouping::replay(Which::C03, f),
+        "C04" => props::c04::replay(f),
         "C05" => props::c05::replay(f),
         "C06" => props::c06::replay(f),
         "C07" => props::c07::replay(f),
         "C08" => props::c08::replay(f),
         "C10" => props::c10::replay(f),
         "C11" => props::c11::replay(f),
+        "C12" => props::c12::replay(f),
         "C13" => props::c13::replay(f),
         "C14" => props::c14::replay(f),
         "C15" => props::c15::replay(f),
